@@ -1,9 +1,13 @@
 // C01: encode then decode returns the original packets (and C20: determinism of the whole pipeline, see c20 entries).
 // Shape: as enc.cpp (K, L0..L2, T0..T2, MAXB, MINB, API) plus PKIND (0 generic payload, 1 CAN, 2 CAN-FD, 3 LIN,
-// 8 Ethernet), FLG (common flags, concrete), VERB (protocol version, concrete >= 1), SYMIDS (1: device/stream id
+// 8 Ethernet, 7 analog, 101 capture-module status, 102 interface status), FLG (common flags, concrete), VERB (protocol version, concrete >= 1), SYMIDS (1: device/stream id
 // symbolic - used with the unordered_map model).
+#include <asam_cmp/analog_payload.h>
 #include <asam_cmp/can_fd_payload.h>
+#include <asam_cmp/capture_module_payload.h>
 #include <asam_cmp/decoder.h>
+#include <asam_cmp/interface_payload.h>
+#include <string_view>
 #include "enc_common.h"
 
 #ifndef PKIND
@@ -67,6 +71,35 @@ static Packet* mkTyped(Src& s, unsigned i)
     pl.setFlags(0x0084);
 #endif
     pl.setData(s.data[i], static_cast<uint16_t>(LEN[i] - 6));
+    p->setPayload(pl);
+#elif PKIND == 7
+    // analog: 16-byte header + samples
+    AnalogPayload pl;
+    pl.setSampleDt(AnalogPayload::SampleDt::aInt32);  // concrete: the decoder dispatches on it
+    pl.setUnit(static_cast<AnalogPayload::Unit>(s.vendorId[i] & 0x3F));
+    pl.setSampleInterval(0.000125f);  // concrete: symbolic floats cost CBMC a float encoding per byte swap (69 s instead of 4 s); their layout is C11/C12's business
+    pl.setSampleOffset(-2.25f);
+    pl.setSampleScalar(1.5f);
+    pl.setData(s.data[i], LEN[i] - 16);
+    p->setPayload(pl);
+#elif PKIND == 101
+    // capture-module status: 26-byte header, four 1-character strings (4 bytes each on the wire), vendor data of LEN-44 bytes
+    CaptureModulePayload pl;
+    pl.setUptime(s.ts[i]);
+    pl.setGptpFlags(s.flags[i]);
+    char c[4];
+    for (int k = 0; k < 4; ++k)
+        c[k] = static_cast<char>(s.data[i][k] | 1);  // non-NUL
+    std::vector<uint8_t>* vd = new std::vector<uint8_t>(s.data[i] + 4, s.data[i] + 4 + (LEN[i] - 44));
+    pl.setData(std::string_view(c, 1), std::string_view(c + 1, 1), std::string_view(c + 2, 1), std::string_view(c + 3, 1), *vd);
+    p->setPayload(pl);
+#elif PKIND == 102
+    // interface status: 36-byte header, 2 stream ids, vendor data of LEN-42 bytes
+    InterfacePayload pl;
+    pl.setInterfaceId(s.ifId[i]);
+    pl.setMsgTotalRx(static_cast<uint32_t>(s.ts[i]));
+    pl.setInterfaceType(s.flags[i]);
+    pl.setData(s.data[i], 2, s.data[i] + 2, static_cast<uint16_t>(LEN[i] - 42));
     p->setPayload(pl);
 #endif
     p->setVersion(VERB);
